@@ -50,6 +50,33 @@ def run(ctx: Ctx) -> None:
                     ctx.check(good, "M1", construct, loc_fv, f"quote {q}: {shown}", f"{k.upper()} with a value of class {vc.name} is written as {shown!r} (quote {q}); required: {want_desc}")
     ctx.units.update({"slot_class_quote_cells": n, "pai_evaluations": PM.evals})
 
+    # ---- M4 the same object printed twice ------------------------------------------------------------
+    ctx.rule("M4", "a list value is written the same way the second time the same list object is printed (by the same or another printer): formatting does not rewrite the caller's value", 20)
+    I4 = e.interp(allow_fork=False)
+    n4 = 0
+    for t in S.types():
+        for k, node in sorted(S.slots(t).items()):
+            if k in special_keys:
+                continue
+            for vc in printer.classes_for(S, t, k, node):
+                if not vc.name.startswith("LIST"):
+                    continue
+                holder: dict = {}
+                got = []
+                for i_ in range(2):
+                    def make4(t=t, k=k, vc=vc):
+                        holder.setdefault("v", vc.make('"'))
+                        return models.printer(I4, quote='"', indent=0), [t, k, holder["v"], 0, 0], {}
+
+                    outs = I4.explore("pprint.PrettyPrinter.process_attribute", make4)
+                    if len(outs) != 1:
+                        raise AnalysisError(f"process_attribute forks for {t}.{k} {vc.name}")
+                    got.append((outs[0].kind, outs[0].value if outs[0].kind == "return" else outs[0].exc))
+                n4 += 1
+                unchanged = holder["v"] == vc.make('"')
+                ctx.check(got[0] == got[1] and unchanged, "M4", f"{t}.{k} | {vc.name}", loc_fv, f"{got[0][1]!r} twice", f"{k.upper()}: the first print writes {got[0][1]!r}, printing the same list object again writes {got[1][1]!r}" + ("" if unchanged else f" - the caller's list was rewritten to {holder['v']!r}"))
+    ctx.units["list_values_printed_twice"] = n4
+
     # ---- M3 lookup follows the enclosing object ------------------------------------------------------
     ctx.rule("M3", "a keyword is formatted by the schema of its *own* enclosing object wherever it stands: printed after a child block that has a keyword of the same name with a different schema, its line is the same as without the child", 10)
     from .. import layout as _layout
